@@ -18,7 +18,8 @@ and it refuses unless
   * every command-data reference (SRK table, certificates, signatures, MAC) lies inside the CSF behind the commands,
     is 4-aligned, carries the right tag and the referenced blocks do not overlap,
   * the key slots are used consistently (SRK -> slot 0, CSFK verified by slot 0 into slot 1, CSF authenticated with
-    slot 1, image key verified by slot 0, data authenticated with an installed image key, decrypt key = installed secret key).
+    slot 1, image key verified by slot 0, data authenticated with an installed image key, decrypt key = installed secret key;
+    or HAB4 fast authentication: no certificate installed, CSF authenticated with index 1 and data with index 0 = the SRK).
 Signature verification itself (CMS / X.509 / RSA / ECDSA) is done by the harness with `cryptography` / `asn1crypto`.
 
 Written without loops / mutable variables (explicit `bindE` / `chk` combinators, structural recursion) so that
@@ -155,6 +156,9 @@ structure Walk where
 
 def hasSlot (w : Walk) (slot kind : Nat) : Bool := w.slots.any (· == (slot, kind))
 
+/-- HAB4 fast authentication: the SRK is installed and no CSF / image key certificate is (the SRK itself signs) -/
+def fastAuth (w : Walk) : Bool := hasSlot w 0 0 && w.csfCert.isNone && w.imgCert.isNone
+
 def stepCmd (region : Bytes) (hdrLen self csf : Nat) (w : Walk) : RCmd → R Walk
   | .insKey flags proto _alg src tgt loc =>
     if proto = 0x03 then            -- SRK table
@@ -184,12 +188,12 @@ def stepCmd (region : Bytes) (hdrLen self csf : Nat) (w : Walk) : RCmd → R Wal
     if proto = 0xC5 then
       bindE (dataRef region hdrLen loc 0xD8 "signature") fun r =>
       if blocks.isEmpty then
-        chk (key == 1 && hasSlot w 1 1) s!"Authenticate CSF with key slot {key}" <|
+        chk (key == 1 && (hasSlot w 1 1 || fastAuth w)) s!"Authenticate CSF with key slot {key}" <|
         chk w.csfSig.isNone "two Authenticate CSF commands" <|
         .ok { w with csfSig := some r, refs := r :: w.refs }
       else
         chk w.csfSig.isSome "Authenticate Data before Authenticate CSF" <|
-        chk (hasSlot w key 2) s!"Authenticate Data: key slot {key} holds no image key" <|
+        chk (hasSlot w key 2 || (key == 0 && fastAuth w)) s!"Authenticate Data: key slot {key} holds no image key" <|
         chk w.dataSig.isNone "two Authenticate Data commands" <|
         .ok { w with dataSig := some r, auth := offs, refs := r :: w.refs }
     else if proto = 0xA3 then
